@@ -390,6 +390,38 @@ func checkC12(c *Ctx) {
 	modulesRuns(c, p, c12ModBuild, judge)
 	flush()
 	_ = okAll
+	wideGlobal(c, p, "C12", func(want, refs1, refs2, ren []string, defs map[string][]string, raw json.RawMessage) {
+		// R1/R2 on the wide workspace: the use asked about is among the references, both questions give the same set,
+		// and go-to-definition at uses in three files leads to the declaration that the references contain
+		var prob []string
+		if strings.Join(refs1, " ") != strings.Join(refs2, " ") {
+			prob = append(prob, fmt.Sprintf("references asked at the declaration (%d) and at a use (%d) differ", len(refs1), len(refs2)))
+		}
+		has := map[string]bool{}
+		for _, x := range refs2 {
+			has[x] = true
+		}
+		if !has["def.lua:1:6"] {
+			prob = append(prob, "the use asked about is not among its own references")
+		}
+		for f, d := range defs {
+			if len(d) != 1 || d[0] != "def.lua:0:0" {
+				prob = append(prob, fmt.Sprintf("definition at the use in %s answers %v", f, d))
+			}
+			found := false
+			for x := range has {
+				if strings.HasPrefix(x, f+":1:") {
+					found = true
+				}
+			}
+			if !found {
+				prob = append(prob, fmt.Sprintf("the use in %s resolves to the declaration but is not among the declaration's references", f))
+			}
+		}
+		if len(prob) > 0 {
+			c.Rep.Violation(raw, "a global defined in def.lua and used in 27 further files (one created after start-up): "+strings.Join(prob, "; "))
+		}
+	})
 	// Project.tla: workspaces analysed as a project (entry file + what it requires), both modes
 	projectRuns(c, p, 0, "hover")
 	c.poolStats(p)
